@@ -229,6 +229,13 @@ func cmdExec(args []string) int {
 	var tape *Tape
 	if *preludeF != "" {
 		kn0 := loadKnown(*known, *prop)
+		if strings.HasPrefix(*preludeF, "@") {
+			b, err := os.ReadFile((*preludeF)[1:])
+			if err != nil {
+				infraFatal("prelude file: %v", err)
+			}
+			*preludeF = strings.TrimSpace(string(b))
+		}
 		for _, f := range strings.Split(*preludeF, ",") {
 			j, err := strconv.ParseUint(f, 10, 64)
 			if err != nil {
